@@ -868,7 +868,7 @@ def check_C16(tier, rng, rep):
     idx = list(range(ncase))
     if quick:
         idx = runner.sample(idx, 400, rng)
-    jobs = [(path, idx[k:k + 20], {}) for k in range(0, len(idx), 20)]
+    jobs = [(path, idx[k:k + 20], {"sweep": k == 0}) for k in range(0, len(idx), 20)]
     res = runner.pool_map(queries.prims_case, jobs, chunksize=1)
     rep.add_results("prims", res)
     rep.cov["factory_calls"] = sum(r.get("stats", {}).get("calls", 0) for r in res)
